@@ -38,8 +38,10 @@ def load_files(*file_names: Union[str, Path]) -> Database:
             db.add_pdx_file(str(file_name))
         elif p.suffix.lower().startswith(".odx"):
             db.add_odx_file(str(file_name))
-        elif p.name.lower() != "index.xml":
-            db.add_auxiliary_file(str(file_name))
+        elif p.name.lower() == "index.xml":
+            db.add_index_file(p)
+        else:
+            db.add_auxiliary_file(p.name, open(str(file_name), "rb"))
 
     db.refresh()
     return db
@@ -57,7 +59,9 @@ def load_directory(dir_name: Union[str, Path]) -> Database:
             db.add_pdx_file(str(p))
         elif p.suffix.lower().startswith(".odx"):
             db.add_odx_file(str(p))
-        elif p.name.lower() != "index.xml":
+        elif p.name.lower() == "index.xml":
+            db.add_index_file(p)
+        else:
             db.add_auxiliary_file(p.name, open(str(p), "rb"))
 
     db.refresh()
